@@ -140,6 +140,7 @@ func Preorder(str string, visitor Visitor, opts *VisitorOptions) error {
 type traverser struct {
 	parser  Parser
 	visitor Visitor
+	depth   int // nesting depth of the recursive descent, bounded by types.MAX_RECURSE
 }
 
 // NOTE: keep in sync with (*Parser).Parse method.
@@ -172,6 +173,12 @@ func (self *traverser) decodeValue() error {
 
 // NOTE: keep in sync with (*Parser).decodeArray method.
 func (self *traverser) decodeArray() error {
+	if self.depth >= types.MAX_RECURSE {
+		return types.ERR_RECURSE_EXCEED_MAX
+	}
+	self.depth++
+	defer func() { self.depth-- }()
+
 	sp := self.parser.p
 	ns := len(self.parser.s)
 
@@ -227,6 +234,12 @@ func (self *traverser) decodeArray() error {
 
 // NOTE: keep in sync with (*Parser).decodeObject method.
 func (self *traverser) decodeObject() error {
+	if self.depth >= types.MAX_RECURSE {
+		return types.ERR_RECURSE_EXCEED_MAX
+	}
+	self.depth++
+	defer func() { self.depth-- }()
+
 	sp := self.parser.p
 	ns := len(self.parser.s)
 
